@@ -117,6 +117,11 @@ def rule_r4(chk, db):
     for name, what in (("s3s::stream::aggregate_unlimited", "buffering of the file part"), ("s3s::http::multipart::transform_multipart", "reading the form")):
         b = db.body(name)
         if b is None:
+            # moved (e.g. into an impl block of the stream type): the function of the stream module with that name
+            alt = [x for x in db.bodies.values() if x.crate == "s3s" and x.kind in ("Fn", "AssocFn") and short(x.name) == short(name) and
+                   x.name.startswith(name.rsplit("::", 1)[0] + "::")]
+            b = alt[0] if len(alt) == 1 else None
+        if b is None:
             chk.anchor_missing("R4", "%s not found" % name)
             continue
         n += streamerr.check(chk, "R4", db, b, what)
